@@ -26,7 +26,7 @@ def _run_shard(modname, shard, seed, max_s):
 def run(pid, tier, seed, mod):
   ev = common.Evidence(pid, "exploration", tier, seed)
   shards = mod.SHARDS(tier)
-  args = [(mod.__name__, sh[0], seed, sh[1]) for sh in shards]      # (shard params, max_s)
+  args = [(mod.__name__, sh[0], seed, common.fit_cap(sh[1], len(shards), tier)) for sh in shards]      # (shard params, max_s)
   results = common.pmap(_run_shard, args)
   runs = nontriv = queries = 0
   solver_s = 0.0
